@@ -44,7 +44,7 @@ ASSUMPTIONS = [
 BOOL_OPTS = ["retain_names", "retain_coefficients", "sort_graded", "sort_reverse", "display_graded", "display_reverse", "display_inverse", "force_number_suffix"]
 SORT_OPTS = ["sort_graded", "sort_reverse"]
 DISPLAY_OPTS = ["display_graded", "display_reverse", "display_inverse", "display_exponent", "display_multiply"]
-ORDERING = {"lt", "eq_cmp", "lead_exponent", "lead_coefficient", "argmax", "argmin", "maximum", "sortable_proxy"}
+ORDERING = {"lt", "le", "gt", "ge", "eq_cmp", "lead_exponent", "lead_coefficient", "argmax", "argmin", "maximum", "minimum", "sortable_proxy"}
 DISPLAY = {"str", "repr"}
 
 
@@ -75,7 +75,8 @@ def _kw(ch: core.Chooser) -> dict:
 
 OPS = ["add", "sub", "mul", "pow", "derivative", "gradient", "hessian", "call_full", "call_partial", "call_poly", "getitem", "align", "clean", "pickle",
        "lt", "eq_cmp", "lead_exponent", "lead_coefficient", "argmax", "maximum", "str", "repr", "neg", "sum", "reshape", "concat", "where", "polynomial",
-       "isfinite", "dict_ctor", "noname_ctor", "const_tonumpy", "pow_by_poly", "call_cancelled", "symbols_one", "item_overwritten", "join_monomials", "monomial_default"]
+       "isfinite", "dict_ctor", "noname_ctor", "const_tonumpy", "pow_by_poly", "call_cancelled", "symbols_one", "item_overwritten", "join_monomials", "monomial_default",
+       "minimum", "le", "gt", "ge"]
 
 
 def _gen_op(ch: core.Chooser, nslots: int, names: List[str]) -> dict:
@@ -303,7 +304,7 @@ class Exec:
         fn = node["fn"]
         a = self.poly(node["ins"][0])
         self.operand_names[node["id"]] = tuple(a.names)
-        if fn in ("add", "sub", "mul", "align", "lt", "eq_cmp", "maximum", "concat", "where"):
+        if fn in ("add", "sub", "mul", "align", "lt", "le", "gt", "ge", "eq_cmp", "maximum", "minimum", "concat", "where"):
             b = self.poly(node["ins"][1])
             if fn == "add":
                 return a + b
@@ -320,6 +321,14 @@ class Exec:
                 return a == b
             if fn == "maximum":
                 return n.maximum(a, b)
+            if fn == "minimum":
+                return n.minimum(a, b)
+            if fn == "le":
+                return a <= b
+            if fn == "gt":
+                return a > b
+            if fn == "ge":
+                return a >= b
             if fn == "concat":
                 if a.shape != b.shape or not a.shape:
                     raise core.Undecided("shapes do not concatenate")
